@@ -49,9 +49,15 @@ def load_wide() -> list[dict]:
     return json.load(open(path, encoding="utf-8")) if os.path.exists(path) else []
 
 
+def load_twin() -> list[dict]:
+    """twin-joined variants (tools/build_twin.py): program + renamed copy + statements joining both bodies"""
+    path = os.path.join(HERE, "workload", "twin.json")
+    return json.load(open(path, encoding="utf-8")) if os.path.exists(path) else []
+
+
 def load_all() -> list[dict]:
-    """base + extra + wide"""
-    return load_base() + load_wide()
+    """base + extra + wide + twin"""
+    return load_base() + load_wide() + load_twin()
 
 
 def load_safe(wide: bool = False) -> list[dict]:
